@@ -61,6 +61,8 @@ func main() {
 		sizes(a, res)
 	case "honest":
 		honest(a, res)
+	case "builder":
+		builder(a, res)
 	default:
 		hx.Fatal("unknown subcommand %s", cmd)
 	}
